@@ -231,6 +231,21 @@ class Env(object):
         return self._i.lookup(k, self._fr)
 
 
+_MUTATORS = frozenset(['append', 'extend', 'insert', 'pop', 'remove', 'clear', 'sort', 'reverse', 'update', 'setdefault',
+                       'popitem', 'add', 'discard', 'appendleft', 'extendleft', 'popleft', 'rotate', '__setitem__',
+                       '__delitem__', '__iadd__', '__ior__', 'difference_update', 'intersection_update',
+                       'symmetric_difference_update'])
+_LOCK_OPS = frozenset(['acquire', 'release', '__enter__', '__exit__'])
+_LOCK_TYPES = tuple(t for t in (type(__import__('threading').Lock()), type(__import__('threading').RLock())))
+_CONTAINERS = (list, dict, set, bytearray, __import__('collections').deque)
+try:
+    from lxml import etree as _etree
+    _CONTAINERS = _CONTAINERS + (_etree._Element, _etree._Validator)
+    _MUTATORS = _MUTATORS | frozenset(['set', 'addnext', 'addprevious', 'replace', 'validate', 'assertValid', 'assert_',
+                                       '__call__'])
+    _LXML_SUBELEMENT = _etree.SubElement
+except ImportError:                                             # pragma: no cover
+    _LXML_SUBELEMENT = None
 _ORDER_SENSITIVE = (builtins.list, builtins.tuple, builtins.enumerate, builtins.zip, builtins.iter, builtins.map,
                     builtins.filter, builtins.sorted, builtins.next, dict.fromkeys)
 
@@ -252,7 +267,10 @@ class Interp(object):
         self.depth = 0
         self.max_depth = 400
         self.max_unroll = 64
-        self.store_hook = None             # frame checks: hook(kind, obj, name_or_key, value)
+        self.store_hook = None             # frame checks: hook(kind, obj, name_or_key, value); kinds attr, item,
+        #                                    delitem, delattr, mutate (native container mutator), lock (acquire/release)
+        self.cur_stmt = (None, 0)          # (FuncInfo, line within the function) of the statement being executed
+        self.load_hook = None              # hook(obj, name) on every attribute load by interpreted code
         self.steps = 0
         self.max_steps = 2000000
         self.info_stack = []
@@ -639,6 +657,8 @@ class Interp(object):
     _prop_cache = {}
 
     def getattr(self, obj, name):
+        if self.load_hook is not None:
+            self.load_hook(obj, name)
         if getattr(obj, '_pyvc_model', False) and not isinstance(obj, type):
             from .timemodel import model_getattr
             return model_getattr(self, obj, name)
@@ -912,6 +932,19 @@ class Interp(object):
             self.iter_hook(('sorted', args[0], kwargs['key']), self.info_stack[-1] if self.info_stack else None)
         if fn is builtins.super and not args:
             raise Unsupported("zero-argument super() outside a frame")
+        if self.store_hook is not None:
+            nm = getattr(fn, '__name__', '')
+            if nm in _MUTATORS or nm in _LOCK_OPS:
+                recv = getattr(fn, '__self__', None)
+                rest = args
+                if recv is None or isinstance(recv, types.ModuleType) or isinstance(recv, type):
+                    recv, rest = (args[0], args[1:]) if args else (None, args)
+                if isinstance(recv, _LOCK_TYPES) and nm in _LOCK_OPS:
+                    self.store_hook('lock', recv, nm, rest)
+                elif isinstance(recv, _CONTAINERS) and nm in _MUTATORS:
+                    self.store_hook('mutate', recv, nm, rest)
+            elif fn is _LXML_SUBELEMENT and args:
+                self.store_hook('mutate', args[0], 'SubElement', args[1:])
         if self.set_order is not None and (fn in _ORDER_SENSITIVE or getattr(fn, '__name__', '') in ('join', 'extend',
                                                                                                     'from_iterable')):
             args = tuple(self.ordered_set(a) if type(a) in (set, frozenset) else a for a in args)
@@ -1007,6 +1040,7 @@ class Interp(object):
             self.depth -= 1
             raise Unsupported("interpreter recursion limit")
         self.info_stack.append(fr.info)
+        saved_stmt = self.cur_stmt
         try:
             if isinstance(node, ast.Lambda):
                 return self.eval(node.body, fr)
@@ -1018,6 +1052,7 @@ class Interp(object):
         finally:
             self.depth -= 1
             self.info_stack.pop()
+            self.cur_stmt = saved_stmt
 
     # ------------------------------------------------------------------ statements
     def exec_block(self, stmts, fr):
@@ -1025,6 +1060,7 @@ class Interp(object):
             self.exec_stmt(s, fr)
 
     def exec_stmt(self, node, fr):
+        self.cur_stmt = (fr.info, node.lineno)
         m = getattr(self, 'x_' + type(node).__name__, None)
         if m is None:
             raise Unsupported("statement %s" % type(node).__name__)
